@@ -524,14 +524,29 @@ def atomicity_cases(seed, n):
         texts = [render_rule(rng, r["name"], r["def"], rng.random() < 0.5) for r in c["rules"]]
         body = "".join(t + "\r\n" for t in texts)
         pos = rng.randrange(len(body))
-        ch = rng.choice(["@", "\x00", "\"", "(", ")", "[", "=", "%", "é", "\ud800", "\U0001F600", "", "\r", "\n", "*", "<"])
-        kind = rng.choice(["replace", "insert", "delete"])
-        if kind == "replace":
+        ch = rng.choice(["@", "\x00", "\"", "(", ")", "[", "=", "%", "é", "\ud800", "\U0001F600", "", "\r", "\n", "*", "<"] +
+                        # characters that Python's str methods treat as line boundaries or white space (splitlines, strip, isspace)
+                        # but ABNF does not: VT FF FS GS RS US NEL LS PS NBSP, ideographic space, BOM, zero-width space, DEL
+                        ["\x0b", "\x0c", "\x1c", "\x1d", "\x1e", "\x1f", "\x85", "\u2028", "\u2029", "\u00a0", "\u3000", "\ufeff", "\u200b", "\x7f"])
+        kind = rng.choice(["replace", "insert", "delete", "linebreak", "linebreak"])
+        if kind == "linebreak":
+            # one line break of the text (between rules, before a continuation line, after a comment) becomes that character
+            brks = [i for i in range(len(body) - 1) if body[i:i + 2] == "\r\n"]
+            pos = rng.choice(brks)
+            bad = body[:pos] + (ch or "\x0b") + body[pos + 2:]
+        elif kind == "replace":
             bad = body[:pos] + ch + body[pos + 1:]
         elif kind == "insert":
             bad = body[:pos] + ch + body[pos:]
         else:
             bad = body[:pos] + body[pos + 1:]
+        if rng.random() < 0.12:
+            # syntactically fine, but a value beyond the last code point (the compile step refuses it with some exception): what
+            # matters here is what the refused compile leaves behind for LATER compiles
+            kind = "value-out-of-range"
+            bad = body + rng.choice(["zz9 = %x41.110000\r\n", "zz9 = %x110000\r\n", "zz9 = %d65.1114112.66\r\n", "zz9 = %x41-110000\r\n",
+                                     "zz9 = %b1000001.100010000000000000000\r\n"])
+            pos = len(body)
         route = rng.choice(["load", "load_nonstrict", "create"])
         cases.append({"seed": seed, "index": k, "route": route, "text": bad, "valid_text": body, "pos": pos, "kind": kind})
     return cases
@@ -545,6 +560,15 @@ def run_atomicity(cases):
     stats = {"rejected": 0, "still_valid": 0, "routes": {}}
     lines = []
     plan = []
+    REF = ('n1 = %d65.66 %x43-5A %b1000001 / %x20-21 / "q" %s"Q"\r\nn2 = 2*3n1 [ %d48-57 ] *( %x61.62.63 / <p> )\r\n'
+           'n3 = %x0 %x10FFFF %d1114111 %xD800\r\n')
+
+    def ref_graph():
+        rc = type("Ref", (P.Rule,), {})
+        rc.load_grammar(REF)
+        return json.dumps([pyimpl.sexpr(rc(n).definition) for n in ("n1", "n2", "n3")])
+    import pyimpl
+    ref0 = ref_graph()
     for c in cases:
         cls = type("A", (P.Rule,), {})
         before = {k: (id(o), id(getattr(o, "definition", None))) for k, o in P.Rule._obj_map.items()}
@@ -563,6 +587,15 @@ def run_atomicity(cases):
             st = "OTHER:" + type(e).__name__
         after = {k: (id(o), id(getattr(o, "definition", None))) for k, o in P.Rule._obj_map.items()}
         changed = [str(k[1]) for k in after if k not in before or before[k] != after[k]]
+        # whatever happened to this text, a fixed reference grammar compiled NOW must come out as it did at the start of the process
+        try:
+            now = ref_graph()
+        except Exception as e:  # noqa: BLE001
+            now = "EXC:" + type(e).__name__
+        if now != ref0:
+            mism.append({"what": f"after a load that ended with {st}, compiling a fixed reference grammar gives another result than before: {now[:200]} (was {ref0[:200]})",
+                         "case": c})
+            ref0 = now if not now.startswith("EXC") else ref0
         if c["route"] == "create":
             lines.append(" ".join(["RRESET"]))
             lines.append(" ".join(["RCREATE", "0", "100"] + stoks(c["text"])))
@@ -678,6 +711,80 @@ json.dump({"st1": st1, "d1": d1, "p1": p1, "st2": st2, "d2": d2, "p2": p2}, sys.
     return json.loads(p.stdout)
 
 
+C10_FIXED = r'''
+import json, os, sys, tempfile, pathlib
+import abnf.parser as P
+from abnf.grammars.misc import load_grammar_rules, load_grammar_rulelist
+bad = []
+def ok(rule, s):
+    try:
+        rule.parse_all(s); return True
+    except P.ParseError:
+        return False
+def expect(name, cond):
+    if not cond:
+        bad.append(name)
+which = sys.argv[1]
+if which == "same-file-two-classes":
+    # the same grammar file loaded into several grammar classes (str and Path spellings): each class gets its own rules
+    A = type("A", (P.Rule,), {}); B = type("B", (P.Rule,), {}); C = type("C", (B,), {})
+    with tempfile.NamedTemporaryFile("w", suffix=".abnf", delete=False, newline="", encoding="ascii") as f:
+        f.write('greeting = "hi" DIGIT\r\nbye = "bye"\r\n'); path = f.name
+    try:
+        A.from_file(path); B.from_file(path); C.from_file(pathlib.Path(path)); A.from_file("./" + os.path.relpath(path))
+    finally:
+        os.unlink(path)
+    for K in (A, B, C):
+        expect(K.__name__ + " has its own greeting", K.get("greeting") is not None and hasattr(K("greeting"), "definition") and ok(K("greeting"), "hi5") and not ok(K("greeting"), "hi"))
+    expect("distinct rule objects", len({id(A("greeting")), id(B("greeting")), id(C("greeting"))}) == 3)
+    A.create('greeting = "x"')
+    expect("B unaffected by A redefinition", ok(B("greeting"), "hi5") and ok(C("bye"), "bye") and ok(A("greeting"), "x"))
+elif which == "get-with-default":
+    # Rule.get(name, default) is a pure lookup: the default is handed back, never registered
+    A = type("A", (P.Rule,), {}); B = type("B", (P.Rule,), {})
+    A.create('token = "a"')
+    r = B.get("token", A("token"))
+    expect("default returned", r is A("token"))
+    expect("get again finds nothing", B.get("token") is None and B.get("Token", None) is None)
+    B.create('token = "b"')
+    expect("A keeps its own token", ok(A("token"), "a") and not ok(A("token"), "b"))
+    expect("B has its own token", ok(B("token"), "b") and not ok(B("token"), "a") and B("token") is not A("token"))
+    expect("core lookup through get", B.get("DIGIT") is P.Rule("DIGIT") and B.get("digit", A("token")) is P.Rule("DIGIT"))
+elif which == "import-under-core-name":
+    # the decorators' imported_rules with a local name that, in some letter case, is a core rule name: the core rule is shared
+    # by every grammar and must stay what RFC 5234 B.1 says
+    A = type("A", (P.Rule,), {})
+    A.create('token = "t"')
+    before = {n: P.Rule(n).definition for n in ("DIGIT", "WSP", "ALPHA", "HEXDIG")}
+    class D1(P.Rule):
+        grammar = ['x = 1*digit wsp']
+    class D2(P.Rule):
+        grammar = 'y = 2Digit\n'
+    load_grammar_rules([("Digit", A("token")), ("wsp", A("token")), ("hexdig", A("token"))])(D1)
+    load_grammar_rulelist([("digit", A("token")), ("ALPHA", A("token"))])(D2)
+    expect("core objects keep their definitions", all(P.Rule(n).definition is d for n, d in before.items()))
+    expect("DIGIT", ok(P.Rule("DIGIT"), "5") and not ok(P.Rule("DIGIT"), "t"))
+    expect("WSP", ok(P.Rule("WSP"), " ") and not ok(P.Rule("WSP"), "t"))
+    expect("ALPHA / HEXDIG", ok(P.Rule("ALPHA"), "q") and ok(P.Rule("HEXDIG"), "f") and not ok(P.Rule("HEXDIG"), "t"))
+    expect("the reader still reads repeats", ok(type("E", (P.Rule,), {}).create('z = 3*7"a"'), "aaaa"))
+json.dump(bad, sys.stdout)
+'''
+
+
+def run_c10_fixed():
+    """hand-made histories, each in a fresh interpreter; the expectations are invariants of the unchanged library"""
+    out = []
+    for which in ("same-file-two-classes", "get-with-default", "import-under-core-name"):
+        p = subprocess.run([sys.executable, "-c", C10_FIXED, which], capture_output=True, text=True, check=False,
+                           cwd=tempfile.gettempdir())
+        if p.returncode != 0:
+            out.append({"kind": "other", "what": f"fixed history {which}: " + p.stderr.strip().split("\n")[-1][:300], "case": {"scenario": [which], "fixed": True}})
+            continue
+        for b in json.loads(p.stdout):
+            out.append({"kind": "other", "what": f"fixed history {which}: expectation failed: {b}", "case": {"scenario": [which, b], "fixed": True}})
+    return out
+
+
 def impl_run_persistent(classes, scenario, probes):
     """impl_run with a caller-owned class table (so that two calls share the classes)"""
     return impl_run(scenario, probes, classes)
@@ -765,6 +872,10 @@ def main():
     else:
         cases = [c10_scenario(a.seed, k) for k in range(a.n)]
         mism, stats = run_c10(cases)
+        if a.seed % 100 == 0 or a.seed < 100:
+            fx = run_c10_fixed()
+            stats["fixed_histories"] = 3
+            mism = fx + mism
         samples = [{"scenario": c["scenario"], "history_starts_at": c["mark"]} for c in cases[:3]]
         viol = [{"what": m["what"], "identity": m["kind"] if m["kind"] in ("shadow-base-class-name", "import-sharing")
                  else "c10:" + json.dumps(m["case"]["scenario"])[:300],
